@@ -143,3 +143,34 @@ def seed_names(kind):
 
     seed.__name__ = "seed_names_" + kind
     return seed
+
+
+def seed_c02_zero(w):
+    """no instance yet: two definitions (one with a pin), an orphan port with a pin."""
+    s = core.sdn()
+    n = s.Netlist(name="n")
+    lib = n.create_library(name="l")
+    d0 = lib.create_definition(name="d0")
+    d0.create_port(name="p", pins=1)
+    lib.create_definition(name="d1")
+    q = s.Port(name="q")
+    q.create_pin()
+    w.add(n)
+    w.add(q)
+
+
+def seed_c02_mix(w):
+    """one child (connected) and one top instance of the same definition; a parent with a wire."""
+    s = core.sdn()
+    n = s.Netlist(name="n")
+    lib = n.create_library(name="l")
+    d0 = lib.create_definition(name="d0")
+    p = d0.create_port(name="p", pins=1)
+    d1 = lib.create_definition(name="d1")
+    d1.create_port(name="p", pins=1)
+    top = lib.create_definition(name="top")
+    c = top.create_cable(name="c", wires=1)
+    u = top.create_child(name="u", reference=d0)
+    c.wires[0].connect_pin(u.pins[p.pins[0]])
+    n.top_instance = d0
+    w.add(n)
